@@ -83,16 +83,25 @@ def dump_replay_result(rr: JournalStorageReplayResult) -> list[dict[str, Any]]:
     out = []
     for fs in sorted(rr.get_all_studies(), key=lambda fs: fs._study_id):
         ts = rr.get_all_trials(fs._study_id, None)
-        out.append({"study": K.canon_study(fs, fs._study_id), "trials": [K.canon_trial(t, t._trial_id) for t in ts]})
+        out.append({"study": K.canon_study(fs, fs._study_id), "trials": [K.canon_trial(t, t._trial_id) for t in ts], "times": _exact_times(ts)})
     return out
+
+
+def _exact_times(ts: list[Any]) -> list[Any]:
+    return [[None if t.datetime_start is None else t.datetime_start.isoformat(), None if t.datetime_complete is None else t.datetime_complete.isoformat()] for t in ts]
 
 
 def dump_storage(s: JournalStorage) -> list[dict[str, Any]]:
     out = []
     for fs in sorted(s.get_all_studies(), key=lambda fs: fs._study_id):
         ts = s.get_all_trials(fs._study_id, deepcopy=False)
-        out.append({"study": K.canon_study(fs, fs._study_id), "trials": [K.canon_trial(t, t._trial_id) for t in ts]})
+        # "times": exact timestamps, compared between real views only (the model keeps presence/absence)
+        out.append({"study": K.canon_study(fs, fs._study_id), "trials": [K.canon_trial(t, t._trial_id) for t in ts], "times": _exact_times(ts)})
     return out
+
+
+def no_times(d: list[dict[str, Any]]) -> list[dict[str, Any]]:
+    return [{k: v for k, v in x.items() if k != "times"} for x in d]
 
 
 class Disagree(Exception):
@@ -136,7 +145,7 @@ def run_case(cfg: str, tmp: str, seed: int, n_workers: int, n_ops: int, drv: cor
         for i, w in enumerate(workers):
             drv.ask({"cmd": "sync", "worker": wid[i]})
             m = K.strip_model(drv.ask({"cmd": "dump", "worker": wid[i]})["state"])
-            if m != real[i]:
+            if m != no_times(real[i]):
                 raise Disagree("model", "%s: model replica of worker %d differs from the real one: %s / %s" % (
                     where, i, json.dumps(m, sort_keys=True)[:500], json.dumps(real[i], sort_keys=True)[:500]))
 
@@ -204,7 +213,7 @@ def run_case(cfg: str, tmp: str, seed: int, n_workers: int, n_ops: int, drv: cor
         if dump_replay_result(rr) != final:
             raise Disagree("property", "replaying the same log in batches %s as worker %d gives a different state" % (cuts, k))
         m = drv.ask({"cmd": "replay", "worker": wid[k], "cuts": cuts})
-        if K.strip_model(m["rep"]["state"]) != final or m["errors"] != errors:
+        if K.strip_model(m["rep"]["state"]) != no_times(final) or m["errors"] != errors:
             raise Disagree("model", "batch replay: model (errors=%s) vs implementation (errors=%d) differ" % (m.get("errors"), errors))
         # (3) snapshot at a random position + tail, restored by a fresh worker
         at = r.randrange(n + 1)
@@ -225,7 +234,7 @@ def run_case(cfg: str, tmp: str, seed: int, n_workers: int, n_ops: int, drv: cor
         if dump_storage(st) != final:
             raise Disagree("property", "restoring a snapshot taken after %d records and replaying the tail gives a different state" % at)
         m = drv.ask({"cmd": "snapshot", "worker": "fresh-worker", "by": wid[by], "at": at})
-        if K.strip_model(m["rep"]["state"]) != final:
+        if K.strip_model(m["rep"]["state"]) != no_times(final):
             raise Disagree("model", "snapshot+tail: model differs from implementation (at=%d)" % at)
         stats["ops"] = ops_log
         stats["cuts"] = cuts
